@@ -69,7 +69,103 @@ func c16AssetName(a crypto.Hash) string {
 	return a.String()[:8]
 }
 
-var c16Assets = []crypto.Hash{common.XINAssetId, common.BitcoinAssetId, c16AssetU}
+var c16Assets = []crypto.Hash{common.XINAssetId, common.BitcoinAssetId, c16AssetU, c16AssetV}
+
+// ---- near-miss asset identities (deposit asset-info menu) ----
+//
+// A deposit carries (asset id, chain, asset key). The menu deposits an asset
+// whose identity is (or is about to be) registered with an info that misses the
+// registered one narrowly: key differing only in letter case, padded with a
+// space, or the same key on another chain.
+
+// c16AssetV is registered by the menu itself with a mixed-case (checksum style)
+// hex contract address, so that upper, lower and mixed variants all differ.
+var c16AssetV = fixc.Hash("c16-checksum-asset")
+
+const c16KeyV = "0xdAC17F958D2ee523a2206206994597C13D831ec7"
+
+var c16NMAssets = []string{"BTC", "XIN", "V"}
+var c16NMVariants = []string{"upper", "lower", "mixed", "trailing-space", "leading-space", "other-chain"}
+
+// pending-first / pending-second name the finalization order of the two signed snapshots
+var c16NMContexts = []string{"alone", "same-batch", "pending-first", "pending-second", "after-finalized"}
+
+// c16NMCanonical returns (asset id, registered chain, registered key, amount).
+func c16NMCanonical(asset string) (crypto.Hash, crypto.Hash, string, string) {
+	switch asset {
+	case "BTC":
+		return common.BitcoinAssetId, common.BitcoinAssetId, fixc.BTCAssetKey, "0.01"
+	case "XIN":
+		return common.XINAssetId, common.XINAsset.Chain, common.XINAsset.AssetKey, "1"
+	case "V":
+		return c16AssetV, common.EthereumAssetId, c16KeyV, "5"
+	}
+	panic(asset)
+}
+
+// c16NMInfo applies a variant to the registered info; ok=false when the result
+// is identical to the registered info (nothing to miss).
+func c16NMInfo(chain crypto.Hash, key, variant string) (crypto.Hash, string, bool) {
+	nc, nk := chain, key
+	switch variant {
+	case "upper":
+		nk = strings.ToUpper(key)
+	case "lower":
+		nk = strings.ToLower(key)
+	case "mixed":
+		b, n := []byte(key), 0
+		for i, ch := range b {
+			lo, up := ch >= 'a' && ch <= 'z', ch >= 'A' && ch <= 'Z'
+			if !lo && !up {
+				continue
+			}
+			if n%2 == 0 {
+				if lo {
+					b[i] = ch - 'a' + 'A'
+				} else {
+					b[i] = ch - 'A' + 'a'
+				}
+			}
+			n++
+		}
+		nk = string(b)
+	case "trailing-space":
+		nk = key + " "
+	case "leading-space":
+		nk = " " + key
+	case "other-chain":
+		nc = common.BitcoinAssetId
+		if chain == nc {
+			nc = common.EthereumAssetId
+		}
+	default:
+		panic(variant)
+	}
+	return nc, nk, nc != chain || nk != key
+}
+
+// c16NMVariantOf names how info d misses the registered info old.
+func c16NMVariantOf(old common.Asset, d *common.DepositData) string {
+	switch {
+	case old.Chain != d.Chain && old.AssetKey == d.AssetKey:
+		return "other-chain"
+	case old.Chain != d.Chain:
+		return "other"
+	case strings.EqualFold(old.AssetKey, d.AssetKey):
+		switch d.AssetKey {
+		case strings.ToUpper(old.AssetKey):
+			return "upper"
+		case strings.ToLower(old.AssetKey):
+			return "lower"
+		}
+		return "mixed"
+	case strings.TrimSpace(d.AssetKey) == old.AssetKey && strings.HasPrefix(d.AssetKey, old.AssetKey):
+		return "trailing-space"
+	case strings.TrimSpace(d.AssetKey) == old.AssetKey:
+		return "leading-space"
+	}
+	return "other"
+}
 
 // ---- reference ledger ----
 
@@ -179,7 +275,9 @@ func c16Classify(sn *c16Snap, cur *c16Model, pending []*c16Snap) string {
 					}
 					return "pending-deposits-unseen-asset-conflicting-info"
 				}
-				return "deposit-conflicting-info-validated-against-seen-asset"
+				// the asset was registered when this deposit was validated: validation
+				// compared the infos and let a different one through
+				return "deposit-asset-key-near-miss:" + c16NMVariantOf(old, d)
 			}
 			x := mcKUnits(d.Amount)
 			if own[tx.Asset] == nil {
@@ -751,7 +849,7 @@ func (r *c16Run) finish(in *c16Inst, sn *c16Snap, pending []*c16Snap, cs c16Case
 func TestMC_C16(t *testing.T) {
 	c := verifmc.Start(t, "C16", "model_checking")
 	defer c.Finish()
-	c.SetRule("4 base ledgers (BTC never seen / 0 after a full withdrawal / 1250 / 2499.9 of capacity 2500) x every snapshot = subset of size 1..k of 14 batchable candidates built by a deterministic wallet against the current state (5 BTC deposits 1250,1249.9,0.1,0.05,3000; unseen-asset deposit and one with conflicting asset info; BTC transfer, its double spend, XIN transfer, XIN transfer reusing an output key; withdrawal submit; claim of an earlier submit; claim of the submit of the same step) plus the singleton mint and mint+deposit; histories of <=2 snapshots: sequential (second validated after the first is written, from every distinct state) and pipelined (both validated, then finalized in both orders, on two chains). Each snapshot runs through the real validateSnapshotTransaction(s,false), then validateSnapshotTransaction(s,true)+TopoWrite. A case is distinct by (base, mode, compositions, order); a state by (asset totals/infos, multiset of output records with status, wallet memory)")
+	c.SetRule("4 base ledgers (BTC never seen / 0 after a full withdrawal / 1250 / 2499.9 of capacity 2500) x every snapshot = subset of size 1..k of 14 batchable candidates built by a deterministic wallet against the current state (5 BTC deposits 1250,1249.9,0.1,0.05,3000; unseen-asset deposit and one with conflicting asset info; BTC transfer, its double spend, XIN transfer, XIN transfer reusing an output key; withdrawal submit; claim of an earlier submit; claim of the submit of the same step) plus the singleton mint and mint+deposit; histories of <=2 snapshots: sequential (second validated after the first is written, from every distinct state) and pipelined (both validated, then finalized in both orders, on two chains). Plus the deposit asset-info menu: 4 bases x {BTC, XIN, a mixed-case hex-keyed asset} x info missing the registered one narrowly {key upper / lower / mixed case, trailing / leading space, same key on another chain} x registration context {alone, in one batch with the registering deposit, registering deposit pending on another chain (both finalization orders), after the registering deposit is final}. Each snapshot runs through the real validateSnapshotTransaction(s,false), then validateSnapshotTransaction(s,true)+TopoWrite. A case is distinct by (base, mode, compositions, order); a state by (asset totals/infos, multiset of output records with status, wallet memory)")
 	c.Assume("snapshots are written on genesis chains' head rounds with a one-key signature mask (CoSi verification and round logic are not part of the property)",
 		"the custodian signs any deposit the alphabet contains (including conflicting asset info and amounts above capacity): the statement quantifies over everything validation accepts",
 		"finalization-time re-validation refusing a snapshot (no write attempted) is counted as an outcome, not as a failed write",
@@ -886,6 +984,137 @@ func TestMC_C16(t *testing.T) {
 		}
 	}
 
+	orders := []string{"first-then-second", "second-then-first"}
+
+	// ---- near-miss asset identities: base x asset x variant x registration context ----
+	nnm := len(c16Bases) * len(c16NMAssets) * len(c16NMVariants) * len(c16NMContexts)
+	keysnm := make([]string, nnm)
+	var nmRejected, nmWritten atomic.Int64
+	c.ParallelN(nnm, "near-miss asset identities", func(_, i int) {
+		ctx := c16NMContexts[i%len(c16NMContexts)]
+		j := i / len(c16NMContexts)
+		variant := c16NMVariants[j%len(c16NMVariants)]
+		j /= len(c16NMVariants)
+		asset := c16NMAssets[j%len(c16NMAssets)]
+		base := c16Bases[j/len(c16NMAssets)]
+		id, chain, key, amount := c16NMCanonical(asset)
+		vchain, vkey, differs := c16NMInfo(chain, key, variant)
+		if !differs {
+			c.Outcome("nm:disabled-variant-equals-registered-info")
+			return
+		}
+		in := fresh(base)
+		if in == nil {
+			return
+		}
+		defer in.close()
+		in.beginStep(1)
+		mk := func(kind string, ch crypto.Hash, k string) *c16Tx {
+			v := in.w.txDepositAsset(id, ch, k, fmt.Sprintf("c16-nm-%s-%s", asset, kind), amount)
+			return &c16Tx{kind: kind, ver: v, hash: v.PayloadHash()}
+		}
+		reg := mk("reg"+asset, chain, key)
+		nm := mk("nm"+asset+":"+variant, vchain, vkey)
+		ts := in.t0 + uint64(time.Second)
+		cs := c16Case{Base: base, Mode: "near-miss:" + ctx, Steps: []string{nm.kind}}
+		c.Eval(1)
+		c.Distinct(fmt.Sprintf("%s|nm|%s|%s|%s", base, asset, variant, ctx))
+		note := func(out string, written bool) {
+			c.Outcome("nm-" + ctx + ":" + out)
+			if written {
+				nmWritten.Add(1)
+				keysnm[i] = in.key()
+			} else if strings.HasPrefix(out, "reject") || strings.HasPrefix(out, "second-reject") {
+				nmRejected.Add(1)
+			}
+		}
+		switch ctx {
+		case "alone":
+			sn, err := in.propose([]*c16Tx{nm}, in.m.Net.NodeIds[1], ts)
+			if err != nil {
+				c.Require(false, "propose: %v", err)
+				return
+			}
+			note(r.exec(in, sn, cs))
+		case "same-batch":
+			cs.Steps = []string{reg.kind + "+" + nm.kind}
+			sn, err := in.propose([]*c16Tx{reg, nm}, in.m.Net.NodeIds[1], ts)
+			if err != nil {
+				c.Require(false, "propose: %v", err)
+				return
+			}
+			note(r.exec(in, sn, cs))
+		case "after-finalized":
+			cs.Steps = []string{reg.kind, nm.kind}
+			sn1, err := in.propose([]*c16Tx{reg}, in.m.Net.NodeIds[1], ts)
+			if err != nil {
+				c.Require(false, "propose: %v", err)
+				return
+			}
+			if out, written := r.exec(in, sn1, cs); !written {
+				c.Outcome("nm-after-finalized:registering-deposit-" + out)
+				return
+			}
+			in.beginStep(2)
+			sn2, err := in.propose([]*c16Tx{nm}, in.m.Net.NodeIds[2], ts+uint64(time.Second))
+			if err != nil {
+				c.Require(false, "propose: %v", err)
+				return
+			}
+			note(r.exec(in, sn2, cs))
+		case "pending-first", "pending-second":
+			cs.Steps = []string{reg.kind, nm.kind}
+			sn1, err := in.propose([]*c16Tx{reg}, in.m.Net.NodeIds[1], ts)
+			if err != nil {
+				c.Require(false, "propose: %v", err)
+				return
+			}
+			if rej, p := in.validate(sn1); rej != "" || p != nil {
+				c.Outcome("nm-" + ctx + ":registering-deposit-reject:" + rej)
+				return
+			}
+			in.beginStep(2)
+			sn2, err := in.propose([]*c16Tx{nm}, in.m.Net.NodeIds[2], ts+uint64(time.Second))
+			if err != nil {
+				c.Require(false, "propose: %v", err)
+				return
+			}
+			rej, p := in.validate(sn2)
+			if p != nil {
+				r.mu.Lock()
+				r.vp++
+				r.mu.Unlock()
+				c.Set("validation_panic_sample", fmt.Sprintf("%v on %+v", p, cs))
+				return
+			}
+			if rej != "" {
+				note("second-reject:"+rej, false)
+				return
+			}
+			a, b := sn1, sn2
+			if ctx == "pending-second" {
+				a, b = sn2, sn1
+				cs.Order = orders[1]
+			} else {
+				cs.Order = orders[0]
+			}
+			if out, written := r.finish(in, a, []*c16Snap{b}, cs); !written {
+				note("first-"+out, false)
+				return
+			}
+			note(r.finish(in, b, nil, cs))
+		}
+	})
+	for _, k := range keysnm {
+		if k != "" {
+			addState(k)
+		}
+	}
+	c.Set("near_miss_cases", nnm)
+	c.Set("near_miss_rejected_at_signing", nmRejected.Load())
+	c.Set("near_miss_written", nmWritten.Load())
+	c.Require(nmRejected.Load() > 100 && nmWritten.Load() > 10, "near-miss menu vacuous: %d rejected at signing time, %d written", nmRejected.Load(), nmWritten.Load())
+
 	// ---- level 2, sequential: from every distinct state, every second snapshot ----
 	n2 := len(reps) * len(ev2)
 	keys2 := make([]string, n2)
@@ -944,7 +1173,6 @@ func TestMC_C16(t *testing.T) {
 	}
 
 	// ---- level 2, pipelined: both signed on the same ledger, finalized in both orders ----
-	orders := []string{"first-then-second", "second-then-first"}
 	np := len(c16Bases) * len(evp) * len(evp) * len(orders)
 	keysp := make([]string, np)
 	outp := make([]string, np)
